@@ -119,14 +119,14 @@ Print Assumptions C03_pool_rules_covered.
    sides may contain b[x := t] keeps the soundness invariant for an enlarged equation set (below) - the premise that psubst_captures shows
    necessary (no substitution value is the private binder name of a syntactic node) is ESTABLISHED for the matcher's own substitutions
    (their fresh values lie in the window drawn during the search phase, no syntactic node has a private name in that window); extraction
-   of the syntactic term is sound (ExtractSound.get_syn_expr_handle).  PROVED modulo two explicit hypotheses (RewriteSoundSubstSem.
+   of the syntactic term is sound (ExtractSound.get_syn_expr_handle).  PROVED at that point modulo two explicit hypotheses, both discharged in the fourth round below (RewriteSoundSubstSem.
    syn_expr_subst_sem; hit_keep_add: inserting another node does not change what re-inserting the leaf (var $x) returns - proved up to the
    rebuild of mk_singleton_class; PRE: well-formedness facts of the extracted term): the invocation returned for b[(var $x) := t] denotes
    a term whose value in every algebra validating E is the value of b with $x bound to the value of t.  EVALUATED (FpRewriteSubstEx.v,
    vm_compute): with pool rule 11 the model replaces ALL occurrences in every tested situation (0/1/2 occurrences, under a binder, t
    mentioning a slot bound in the context, shadowing, several representatives of the variable's class) and the semantic equation holds
    on 8 histories x 4 environments in F_7; the exact SYNTACTIC formulation is false (redundant_slot_not_syntactic: after (mul ?a 0) -> 0
-   the result is the instance of the class's syntactic term), so the theorem has to be semantic.  Not done: the F_p instance for rule 11. *)
+   the result is the instance of the class's syntactic term), so the theorem has to be semantic.  (The F_p instance for rule 11 and the two hypotheses are closed in the fourth round, below.) *)
 From SE Require Import EGraph.SynPrivOps EGraph.RewriteSoundSubst EGraph.RewriteSoundSubstTop.
 Theorem C03_rewrite_iteration_with_substitution_rhs_keeps_the_invariant : forall rs E s b s',
   RSt E s -> priv3 s -> kids_ok s -> m4 s -> rules_below (Model.ctr s) rs -> Forall rule_nbX rs ->
@@ -134,3 +134,66 @@ Theorem C03_rewrite_iteration_with_substitution_rhs_keeps_the_invariant : forall
   exists E', (forall e, In e E -> In e E') /\ RSt E' s' /\ priv3 s' /\ ext0 s s'.
 Proof. exact apply_rewrites_keeps_RSt. Qed.
 Print Assumptions C03_rewrite_iteration_with_substitution_rhs_keeps_the_invariant.
+
+(* third session, fourth round (EGraph/SubstIface.v, LeafFrameDefs.v, LeafFrame.v, LeafNoHitPre.v, LeafNoHit.v, LeafHitAfter.v,
+   LeafHitClosed.v, SubstFragSk.v, SubstPreFrag.v, SubstPre.v, RewriteSoundSubstJ.v, MatchScope.v, Sem/FpRewriteSubstCore.v,
+   Sem/FpRewriteSubst.v, Sem/FpRewriteSubstTop.v): right-hand sides b[(var $x) := t], CLOSED for the fragment of languages in which
+   `var` is the only operator with a bare slot argument and no operator has two binders (SubstIface.node_frag; true of the
+   arithmetic language of the F_p pool).  PROVED:
+   - C03_reinsertion_exact: the two former hypotheses.  The implementation compares `add_syn(n) == x` SYNTACTICALLY, so what is needed
+     (and true) is exactness, not equality up to eg_eq: re-inserting a childless node returns literally the same invocation after the
+     insertion of any other node (on a miss eg_add allocates one class and its rebuild touches only that class:
+     LeafFrame.rebuild_new_frame, because the re-added node is never hash-consed: LeafNoHit.add_miss_nohit), and right after its own
+     insertion (LeafHitAfter);
+   - C03_substitution_denotes: in every algebra validating E, the invocation SynExprSubst returns for b[(var $x) := t] denotes a term
+     whose value is the value of b with $x bound to the value of t (no hypothesis left: PRE derived from the fragment invariant,
+     SubstPre.subst_pre);
+   - C03_matcher_scope: the e-matcher binds no slot named like the let-binder in the variable outside its scope (needed: the value of t
+     must not depend on $x; MatchScope.let_scope_needs_x_not_fresh: false for a pattern binder named like a fresh slot);
+   - C03_history_sound_fp_subst: after any history of insertions, unions and rewrite iterations with rules that are fp_rules or of the
+     shape (let $x ?b ?t) -> ?b[(var $x) := ?t], handles reported equal evaluate equally in F_p; C03_pool_rules_covered_subst: the 23
+     rules + pool rule 11 satisfy the static premises; FpRewriteSubstTop.gx_same_meaning / hx_same_meaning: the theorem applied to
+     runs (let x = $3 in sum $3. (x + $3) = sum y. ($3 + y) in every F_p, by the theorem). *)
+From SE Require Import EGraph.SubstIface EGraph.LeafHitClosed EGraph.RewriteSoundSubstJ Sem.FpRewriteSubst Sem.FpRewriteSubstTop.
+From SE Require EGraph.MatchScope EGraph.LeafHit EGraph.RepFacts EGraph.UnionInvariantFacts.
+From SE Require Import EGraph.RewriteSoundInst EGraph.RewriteSoundSubst EGraph.AddCoversFacts EGraph.MatchDefs EGraph.Mod4Facts EGraph.RewriteFacts Parse.Parser EGraph.SoundFacts EGraph.SoundAddExpr EGraph.RewriteSoundRun.
+
+Theorem C03_reinsertion_exact : HitKeepAdd /\ HitAfterAdd.
+Proof. exact (conj hit_keep_add hit_after_add). Qed.
+Print Assumptions C03_reinsertion_exact.
+
+Theorem C03_substitution_denotes : forall (D : Type) (interp : nat -> list (sval D) -> D) E, valid D interp E ->
+  forall c0 c1 x b' x' t' tb tt, is_B x = false -> x mod 4 <> 1 ->
+  (forall env, eval D interp 0 (Algebra.upd D env x (eval D interp 0 env tt)) (node_t (varn x) []) = eval D interp 0 env tt) ->
+  forall s a s', RSt E s -> JJ c0 c1 s ->
+  hdl E s b' tb -> hdl E s x' (node_t (varn x) []) -> hdl E s t' tt -> LeafHit.Hit (varn x) x' s -> ~ In x (values_vec (am t')) ->
+  (forall v, In v (values_vec (am b')) -> v mod 4 <> 1 \/ (c0 <= v /\ v < c1)) ->
+  (forall v, In v (values_vec (am t')) -> v mod 4 <> 1 \/ (c0 <= v /\ v < c1)) ->
+  syn_expr_subst b' x' t' s = Ok (a, s') ->
+  RSt E s' /\ JJ c0 c1 s' /\ UnionInvariantFacts.ext0 s s' /\
+  exists r, hdl E s' a r /\ forall env, eval D interp 0 env r = eval D interp 0 (Algebra.upd D env x (eval D interp 0 env tt)) tb.
+Proof. exact syn_expr_subst_sem_closed. Qed.
+Print Assumptions C03_substitution_denotes.
+
+Theorem C03_matcher_scope : forall n x vb vt a1 a2 s l s',
+  nargs n = [ABind x (AApp a1); AApp a2] -> vb <> vt -> inv3 s -> kids_ok s -> m4 s -> x mod 4 <> 1 ->
+  ematch_all (PNode n [PVarP vb; PVarP vt]) s = Ok (l, s') ->
+  forall sb t', In sb l -> sub_get sb vt = Some t' -> ~ In x (values_vec (am t')).
+Proof. exact MatchScope.let_scope. Qed.
+Print Assumptions C03_matcher_scope.
+
+Theorem C03_history_sound_fp_subst : forall p, p <> 0 -> forall (UA : rterm -> rterm -> Prop),
+  (forall t1 t2, UA t1 t2 -> forall env, eval_fp p env (canon0 t1) = eval_fp p env (canon0 t2)) ->
+  forall terms ops hs hrs s, Forall rt_ok terms -> Forall RepFacts.twf terms -> Forall (rt_frag vk) terms ->
+  rops_preX p UA terms ops [] [] empty_egraph ->
+  run_rops terms ops [] [] empty_egraph = Ok (hs, hrs, s) ->
+  forall i j a b ti tj, nth_opt hs i = Some a -> nth_opt hs j = Some b -> nth_opt hrs i = Some ti -> nth_opt hrs j = Some tj ->
+  eg_eq s a b = Ok true -> forall env, eval_fp p env (canon0 ti) = eval_fp p env (canon0 tj).
+Proof. exact fp_rewriting_history_sound_subst_closed. Qed.
+Print Assumptions C03_history_sound_fp_subst.
+
+Theorem C03_pool_rules_covered_subst : forall p, p <> 0 ->
+  Forall (RPx p) pool_mrulesX /\ Forall rule_nbX pool_mrulesX /\
+  Forall (fun r => pat_all NPf (r_lhs r) /\ pat_all NPf (r_rhs r)) pool_mrulesX.
+Proof. exact pool_rules_fpX. Qed.
+Print Assumptions C03_pool_rules_covered_subst.
